@@ -29,9 +29,10 @@ VARIABLES rpos, wpos, used,  \* BufferState
           wwin,              \* live write window: <<>> or <<start, len>>
           rwin,              \* live read window: <<>> or <<start, len, contents, tags>>
           wstale,            \* a second, older write window still held: <<>> or <<start, len>>
+          rstale,            \* a second read window still held: <<>> or <<start, len>>
           poisoned
 
-vars == <<rpos, wpos, used, mem, tags, produced, consumed, wwin, rwin, wstale, poisoned>>
+vars == <<rpos, wpos, used, mem, tags, produced, consumed, wwin, rwin, wstale, rstale, poisoned>>
 
 Cells == 0 .. (Cap - 1)
 Free  == Cap - used
@@ -41,7 +42,7 @@ Init == /\ rpos = 0 /\ wpos = 0 /\ used = 0
         /\ mem = [c \in Cells |-> 0]
         /\ tags = [c \in Cells |-> <<>>]
         /\ produced = 0 /\ consumed = 0
-        /\ wwin = <<>> /\ rwin = <<>> /\ wstale = <<>>
+        /\ wwin = <<>> /\ rwin = <<>> /\ wstale = <<>> /\ rstale = <<>>
         /\ poisoned = FALSE
 
 ---------------------------------------------------------------------------
@@ -63,8 +64,9 @@ TagList(start, len, k) ==
 ---------------------------------------------------------------------------
 AcqW ==
   /\ ~poisoned /\ wwin = <<>> /\ wstale = <<>>
+  /\ ~(rwin # <<>> /\ rstale # <<>>)       \* at most four references to the buffer
   /\ wwin' = <<wpos, Free>>
-  /\ UNCHANGED <<rpos, wpos, used, mem, tags, produced, consumed, rwin, poisoned, wstale>>
+  /\ UNCHANGED <<rpos, wpos, used, mem, tags, produced, consumed, rwin, poisoned, wstale, rstale>>
 
 (* The client writes k <= window length samples starting at the window     *)
 (* start, then commits n <= k of them with tags tg: a sequence of          *)
@@ -90,36 +92,37 @@ Commit(k, n, tg) ==
   /\ used' = used + n
   /\ produced' = produced + n
   /\ wwin' = <<>>
-  /\ UNCHANGED <<rpos, consumed, rwin, poisoned, wstale>>
+  /\ UNCHANGED <<rpos, consumed, rwin, poisoned, wstale, rstale>>
 
 (* produce(0, no tags): returns before taking the lock. Window is dropped. *)
 CommitZero ==
   /\ ~poisoned /\ wwin # <<>>
   /\ wwin' = <<>>
-  /\ UNCHANGED <<rpos, wpos, used, mem, tags, produced, consumed, rwin, poisoned, wstale>>
+  /\ UNCHANGED <<rpos, wpos, used, mem, tags, produced, consumed, rwin, poisoned, wstale, rstale>>
 
 (* Dropping a window without committing.                                   *)
 DropW ==
   /\ ~poisoned /\ wwin # <<>>
   /\ wwin' = <<>>
-  /\ UNCHANGED <<rpos, wpos, used, mem, tags, produced, consumed, rwin, poisoned, wstale>>
+  /\ UNCHANGED <<rpos, wpos, used, mem, tags, produced, consumed, rwin, poisoned, wstale, rstale>>
 
 (* produce(n) with n larger than what is free: assert inside the lock.     *)
 CommitRefused(n) ==
   /\ ~poisoned /\ wwin # <<>>
   /\ n > Free
   /\ poisoned' = TRUE /\ wwin' = <<>>
-  /\ UNCHANGED <<rpos, wpos, used, mem, tags, produced, consumed, rwin, wstale>>
+  /\ UNCHANGED <<rpos, wpos, used, mem, tags, produced, consumed, rwin, wstale, rstale>>
 
 AcqR ==
   /\ ~poisoned /\ rwin = <<>>
   /\ ~(wwin # <<>> /\ wstale # <<>>)   \* at most four references to the buffer
+  /\ ~(rstale # <<>> /\ (wwin # <<>> \/ wstale # <<>>))
   /\ rwin' = <<rpos, used, Contents(rpos, used), TagList(rpos, used, 1)>>
-  /\ UNCHANGED <<rpos, wpos, used, mem, tags, produced, consumed, wwin, poisoned, wstale>>
+  /\ UNCHANGED <<rpos, wpos, used, mem, tags, produced, consumed, wwin, poisoned, wstale, rstale>>
 
 Consume(m) ==
   /\ ~poisoned /\ rwin # <<>>
-  /\ m <= rwin[2]
+  /\ m <= rwin[2] /\ m <= used
   /\ tags' = [c \in Cells |->
                 IF "consume0_wipes_tags" \in Quirks /\ m = 0 THEN <<>>
                 ELSE IF (c + Cap - rpos) % Cap < m THEN <<>> ELSE tags[c]]
@@ -127,38 +130,66 @@ Consume(m) ==
   /\ used' = used - m
   /\ consumed' = consumed + m
   /\ rwin' = <<>>
-  /\ UNCHANGED <<wpos, mem, produced, wwin, poisoned, wstale>>
+  /\ UNCHANGED <<wpos, mem, produced, wwin, poisoned, wstale, rstale>>
 
 DropR ==
   /\ ~poisoned /\ rwin # <<>>
   /\ rwin' = <<>>
-  /\ UNCHANGED <<rpos, wpos, used, mem, tags, produced, consumed, wwin, poisoned, wstale>>
+  /\ UNCHANGED <<rpos, wpos, used, mem, tags, produced, consumed, wwin, poisoned, wstale, rstale>>
 
 ConsumeRefused(m) ==
   /\ ~poisoned /\ rwin # <<>>
   /\ m > used
   /\ poisoned' = TRUE /\ rwin' = <<>>
-  /\ UNCHANGED <<rpos, wpos, used, mem, tags, produced, consumed, wwin, wstale>>
+  /\ UNCHANGED <<rpos, wpos, used, mem, tags, produced, consumed, wwin, wstale, rstale>>
 
 (* The stream API allows a second write window while the first is still   *)
 (* held (the reference count check admits it when no read window is live). *)
 (* The older window is then stale; the only thing the model says about it  *)
 (* is that a commit through it larger than what is free NOW is refused.    *)
 AcqW2 ==
-  /\ ~poisoned /\ wwin # <<>> /\ wstale = <<>> /\ rwin = <<>>
+  /\ ~poisoned /\ wwin # <<>> /\ wstale = <<>> /\ rwin = <<>> /\ rstale = <<>>
   /\ wstale' = <<wpos, Free>>
-  /\ UNCHANGED <<rpos, wpos, used, mem, tags, produced, consumed, wwin, rwin, poisoned>>
+  /\ UNCHANGED <<rpos, wpos, used, mem, tags, produced, consumed, wwin, rwin, poisoned, rstale>>
 StaleCommitRefused(n) ==
   /\ ~poisoned /\ wstale # <<>> /\ wwin = <<>>
   /\ n <= wstale[2] /\ n > Free
   /\ poisoned' = TRUE /\ wstale' = <<>>
-  /\ UNCHANGED <<rpos, wpos, used, mem, tags, produced, consumed, wwin, rwin>>
+  /\ UNCHANGED <<rpos, wpos, used, mem, tags, produced, consumed, wwin, rwin, rstale>>
 DropStale ==
   /\ ~poisoned /\ wstale # <<>>
   /\ wstale' = <<>>
-  /\ UNCHANGED <<rpos, wpos, used, mem, tags, produced, consumed, wwin, rwin, poisoned>>
+  /\ UNCHANGED <<rpos, wpos, used, mem, tags, produced, consumed, wwin, rwin, poisoned, rstale>>
 
 ---------------------------------------------------------------------------
+(* The stream API also allows a second read window while the first is held  *)
+(* (when no write window is live). Both are snapshots of the same region;   *)
+(* after a consume through one of them the other is stale. A consume        *)
+(* through a stale window acts on the live state: it takes the next m       *)
+(* samples if that many are buffered, and is refused otherwise.             *)
+AcqR2 ==
+  /\ ~poisoned /\ rwin # <<>> /\ rstale = <<>> /\ wwin = <<>> /\ wstale = <<>>
+  /\ rstale' = <<rpos, used>>
+  /\ UNCHANGED <<rpos, wpos, used, mem, tags, produced, consumed, wwin, rwin, wstale, poisoned>>
+ConsumeStale(m) ==
+  /\ ~poisoned /\ rstale # <<>> /\ rwin = <<>>
+  /\ m <= rstale[2] /\ m <= used
+  /\ tags' = [c \in Cells |-> IF (c + Cap - rpos) % Cap < m /\ m > 0 THEN <<>> ELSE tags[c]]
+  /\ rpos' = (rpos + m) % Cap
+  /\ used' = used - m
+  /\ consumed' = consumed + m
+  /\ rstale' = <<>>
+  /\ UNCHANGED <<wpos, mem, produced, wwin, rwin, wstale, poisoned>>
+StaleConsumeRefused(m) ==
+  /\ ~poisoned /\ rstale # <<>> /\ rwin = <<>>
+  /\ m <= rstale[2] /\ m > used
+  /\ poisoned' = TRUE /\ rstale' = <<>>
+  /\ UNCHANGED <<rpos, wpos, used, mem, tags, produced, consumed, wwin, rwin, wstale>>
+DropStaleR ==
+  /\ ~poisoned /\ rstale # <<>>
+  /\ rstale' = <<>>
+  /\ UNCHANGED <<rpos, wpos, used, mem, tags, produced, consumed, wwin, rwin, wstale, poisoned>>
+
 (* Tag placements explored: at most MaxTags tags per commit, on any        *)
 (* positions < n (including several on one sample), ordinals 1..MaxTags.   *)
 TagSeqs(n) ==
@@ -180,6 +211,9 @@ Next ==
   \/ \E m \in 1 .. (Cap + 1) : ConsumeRefused(m)
   \/ AcqW2 \/ DropStale
   \/ \E n \in 1 .. Cap : StaleCommitRefused(n)
+  \/ AcqR2 \/ DropStaleR
+  \/ \E m \in 0 .. Cap : ConsumeStale(m)
+  \/ \E m \in 1 .. Cap : StaleConsumeRefused(m)
 
 Spec == Init /\ [][Next]_vars
 
